@@ -162,6 +162,24 @@ impl<'a> Gen<'a> {
         self.tape.pick(&scalar_types()).clone()
     }
 
+    /// a type whose values carry their run-time type unambiguously (for match / if-set tests):
+    /// scalars, and tuples, structs and cells of scalars
+    fn gen_dispatch_ty(&mut self) -> Ty {
+        match self.tape.weighted(&[8, 2, 1, 1]) {
+            0 => self.gen_scalar_ty(),
+            1 => Ty::Tup(vec![self.gen_scalar_ty(), self.gen_scalar_ty()]),
+            2 => {
+                let mut fs = std::collections::BTreeMap::new();
+                fs.insert("a".to_string(), self.gen_scalar_ty());
+                if self.tape.bool() {
+                    fs.insert("b".to_string(), self.gen_scalar_ty());
+                }
+                Ty::Struct(fs)
+            }
+            _ => Ty::cell(self.gen_scalar_ty()),
+        }
+    }
+
     /// a type for a new variable / parameter
     fn gen_ty(&mut self, depth: usize) -> Ty {
         if depth == 0 {
@@ -1130,7 +1148,7 @@ impl<'a> Gen<'a> {
                 // for x in iterator { body }
                 self.label("for");
                 let mixed = self.tape.chance(1, 3);
-                let members = vec![self.gen_scalar_ty(), self.gen_scalar_ty()];
+                let members = vec![self.gen_dispatch_ty(), self.gen_dispatch_ty()];
                 let elem = if mixed { Ty::union(members.clone()) } else if self.tape.bool() { Ty::Int } else { Ty::Str };
                 let it = if mixed {
                     // elements of different run-time types: the same match runs on each of them
@@ -1195,7 +1213,7 @@ impl<'a> Gen<'a> {
     fn match_stmt(&mut self, depth: usize, value: Option<&Ty>) -> Stmt {
         // scrutinee: a union of scalars (run-time type unambiguous)
         let members: Vec<Ty> = {
-            let mut ms = vec![self.gen_scalar_ty(), self.gen_scalar_ty()];
+            let mut ms = vec![self.gen_dispatch_ty(), self.gen_dispatch_ty()];
             if self.tape.bool() {
                 ms.push(Ty::Void);
             }
@@ -1342,7 +1360,7 @@ impl<'a> Gen<'a> {
             9 => {
                 // if-set on a union-typed scalar
                 self.label("if-set");
-                let (ta, tb) = (self.gen_scalar_ty(), self.gen_scalar_ty());
+                let (ta, tb) = (self.gen_dispatch_ty(), self.gen_dispatch_ty());
                 let u = ta.clone().or(tb.clone());
                 let e = self.expr(&u, depth.saturating_sub(1));
                 let v = self.name_for_decl();
